@@ -6,6 +6,7 @@ package utils
 // unsafe.String over the bytes of b: the result has b's length and bytes (the
 // caller must not write b afterwards; checked at the call sites under contract).
 //@ func BytesToStringUnsafe
+//@   log bytesToStringUnsafe
 //@   ensures len(result) == len(b)
 //@   ensures forall i int :: 0 <= i && i < len(b) ==> result[i] == b[i]
 
